@@ -33,10 +33,23 @@ func newDiffState(oldMast *Mast, newMast *Mast) *diffState {
 	dc.alreadyNotifiedNewLink = map[uint8]interface{}{}
 	if oldMast != nil {
 		dc.oldMast = oldMast
-		dc.oldStack = newIterItemStack(iterItem{considerLink: oldMast.root})
+		if !oldMast.rootIsEmpty() {
+			dc.oldStack = newIterItemStack(iterItem{considerLink: oldMast.root})
+		}
 	}
-	dc.newStack = newIterItemStack(iterItem{considerLink: newMast.root})
+	if !newMast.rootIsEmpty() {
+		dc.newStack = newIterItemStack(iterItem{considerLink: newMast.root})
+	}
 	return &dc
+}
+
+// rootIsEmpty reports whether the tree has no top node to traverse: an emptied tree has
+// a nil root, a never-populated one an entry-less in-memory node.
+func (m *Mast) rootIsEmpty() bool {
+	if node, ok := m.root.(*mastNode); ok {
+		return node.isEmpty()
+	}
+	return m.root == nil
 }
 
 func (dc *diffState) resetCurrent() {
